@@ -1,6 +1,6 @@
 (** C10 — metrics are truthful (over exact rationals; counters unbounded). *)
 From Coq Require Import QArith.
-From GA Require Import Model.Spec Proofs.Inv Proofs.MetricsLemmas Proofs.MInv Proofs.MInvWorld.
+From GA Require Import Model.Spec Proofs.Inv Proofs.MetricsLemmas Proofs.MInv Proofs.MInvWorld Proofs.DebtMono Proofs.DebtMonoOps.
 
 Theorem C10_nonneg : forall m, (0 <= allocation_debt m)%Q.
 Proof. exact debt_nonneg. Qed.
@@ -48,6 +48,37 @@ Theorem C10_traced_covers_black :
 Proof. intros ops a ar H. exact (m_traced _ (wminv_reachable ops a ar H)). Qed.
 Print Assumptions C10_traced_covers_black.
 
-(** PARTIAL: monotonicity of the debt under mutator operations (known finding F4 for first-marking
-    forward barriers / resurrect) is decided by the implementation-side oracle; finiteness is a float
-    matter (malformed-input stream). *)
+(** "Never decreased by allocation, mutation or write barriers": every operation a callback can perform
+    -- allocation, loads, stores through Gc::write / unlock / lock setters, OnceLock, raw stores under a
+    licence, root updates, downgrade / upgrade / is_dropped / is_dead, BACKWARD barriers (strong and weak),
+    stash and fetch -- leaves the allocation debt where it was or raises it (given a non-negative
+    trace_factor) ... *)
+Theorem C10_debt_monotone :
+  forall w ar k m ar' hs out,
+    (0 <= trace_f (pac (met (actx ar))))%Q -> first_marking m = false -> micro w ar k m = (ar', hs, out) ->
+    (allocation_debt (met (actx ar)) <= allocation_debt (met (actx ar')))%Q.
+Proof. exact micro_debt_monotone. Qed.
+Print Assumptions C10_debt_monotone.
+
+(** ... with exactly one class of exceptions, the recorded known finding F4: the FORWARD barriers and
+    resurrect, when they mark an object for the first time, earn the marking credit; the decrease is at
+    most [mark_factor], once. Any other decrease is a violation. *)
+Theorem C10_debt_first_marking_bound :
+  forall w ar k m ar' hs out,
+    (0 <= mark_f (pac (met (actx ar))))%Q -> first_marking m = true -> micro w ar k m = (ar', hs, out) ->
+    (allocation_debt (met (actx ar)) - mark_f (pac (met (actx ar))) <= allocation_debt (met (actx ar')))%Q.
+Proof. exact micro_debt_first_marking. Qed.
+Print Assumptions C10_debt_first_marking_bound.
+
+(** the exception is real (F4 witness): a forward barrier on a freshly allocated object of a fully marked
+    arena lowers the debt, and the literal clause is refuted for that class *)
+Example C10_first_marking_refutes_literal_clause :
+  let ops := [OBegin 0 CNew; OMicro (MAlloc 0 KNode 1 0); OEnd; OAdjustDebt 0 (1000#1);
+              OCollect 0 HFinishMarking None; OBegin 0 CMutate; OMicro (MAlloc 4 KNode 1 0)] in
+  exists ar ar', get_arena (run world_init ops) 0 = Some ar
+    /\ get_arena (fst (step (run world_init ops) (OMicro (MBarrierF None 4)))) 0 = Some ar'
+    /\ (allocation_debt (met (actx ar')) < allocation_debt (met (actx ar)))%Q.
+Proof. cbv zeta. eexists. eexists. split; [vm_compute; reflexivity|]. split; [vm_compute; reflexivity|]. vm_compute. reflexivity. Qed.
+
+(** Finiteness is a float matter (the model's debt is an exact rational; the lock-step run compares the
+    implementation's f64 decisions and, on dyadic pacing, its values). *)
